@@ -82,6 +82,11 @@ impl SaslPlainMechanism {
 
 impl SaslPlainMechanism {
     fn validate_init(&self, init: SaslInit) -> Option<SaslCode> {
+        // Only the mechanism offered by this acceptor can be selected
+        if init.mechanism.as_str() != PLAIN {
+            return Some(SaslCode::Auth);
+        }
+
         let response = init.initial_response?.into_vec();
 
         // message = [authzid] NUL authcid NUL passwd
